@@ -126,3 +126,20 @@ def compose(dst, bases):
         fast_clone(os.path.join(b, "gocache"), os.path.join(dst, "gocache"))
         fast_clone(os.path.join(b, "garblecache"), os.path.join(dst, "garblecache"))
     return os.path.join(dst, "gocache"), os.path.join(dst, "garblecache")
+
+
+def link_clone(src, dst):
+    """Fastest clone: hard-link everything (cp -al). Only for short-lived per-case copies of a state whose files the
+    case either leaves alone, rewrites with identical bytes, or replaces after unlinking (faults break the link first)."""
+    if os.path.exists(dst):
+        shutil.rmtree(dst)
+    os.makedirs(os.path.dirname(dst), exist_ok=True)
+    subprocess.run(["cp", "-al", src, dst], check=True)
+    # the patched linker can be rewritten in place (cross-device install): never share its inode
+    for root, _, files in os.walk(dst):
+        if os.path.basename(root) == "tool":
+            for f in files:
+                p = os.path.join(root, f)
+                data = read(p, "rb"); mode = os.stat(p).st_mode
+                os.remove(p); write(p, data, "wb"); os.chmod(p, mode)
+    return dst
